@@ -16,6 +16,10 @@ CLAIMED.update({
 "C31":("proof","The single storing call in Server.Replicate is shown to be dominated by signature verification over the request's own fields, server and client container-membership (flag provenance checked) and decoding; the adapter delegates to full validation.","trusted: go/types, go/ssa, the dataflow engine, FS-chain adapter iteration, SDK crypto",T_GUARD),
 "C45":("proof","For every client object RPC entry point every storage/network effect is shown on all CFG paths to be dominated by LocalNodeUnderMaintenance()==false; the maintenance outcome answers with ErrNodeUnderMaintenance; Replicate is not refused.","trusted: go/types, go/ssa, the dataflow engine, the effect table",T_GUARD),
 "C33":other("Structural half only: exemption predicate shape, wrapper success conditions, and signature verification dominating every call through server state in every registered gRPC service method.")+(T_GUARD+"; service set derived from Register*ServiceServer call sites",),
+"C34":other("Preparator success requires the four transaction validators and the allowed-event lookup; parser slot writers and the multi-call parser table; multi-call parsers check contract and method of later calls before using them; every processor co-signature site is dominated by the alphabet test and its own check.")+(T_GUARD.replace("handlers enumerated from the generated service interfaces","sites enumerated from call sites of NotarySignAndInvokeTX / SetParser")+"; field-writer and registration tables",),
+"C35":other("Structural half: every call of a derived alphabet-authority sink inside pkg/innerring is guarded by alphabet membership locally or on every caller chain; soundness of the guard chain (indexer, -1 on error, keyPosition).")+("static analysis: guard-dominance dataflow lifted over the static call graph (caller-chain search) + must-pass-through on the indexer",),
+"C37":other("Container processor: approvals dominated by alphabet test and check result; check functions' success conditions; sibling agreement of the V1/V2 token branches on obligation classes; verb constant agreement per operation.")+(T_GUARD.replace("handlers enumerated from the generated service interfaces","process/check/approve triples of the container processor")+"; sibling agreement of obligation classes",),
+"C38":other("Admission co-signature dominated by alphabet, script validity, node-info parsing and validator acceptance; composite validator loop shape; epoch tick value and guard; NewEpoch caller table.")+("static analysis: guard-dominance dataflow + loop-shape check + SSA value-shape check + who-may-call on go/ssa",),
 "C40":other("Per-call structure of the epoch timers: guard dominance of handler calls, done=true post-dominance, flag writer sets, lock span, sub-epoch handlers examined on every non-done call.")+("static analysis: guard-dominance dataflow + must-follow (post-dominance) fixpoint + field-writer table on go/ssa",),
 "C46":other("Short-read safety of Restore (no bare Reader.Read with discarded count), Dump/Restore framing agreement, counter advanced only after tolerated Put outcomes.")+("static analysis: API-contract lint bound to the property (with positive fixture) + guard dominance + sibling agreement on go/ssa",),
 "C07":other("Lock protection in the metabase status machinery and its GC callers: guard dominance of garbage marks/tombstone counting by objectLocked==false and not-a-LOCK, of non-available statuses and expiry yields by objectLocked==false; live-lock lookup shape; engine expired-object deletion after the lock check; caller table of physical deletion.")+(T_GUARD.replace("handlers enumerated from the generated service interfaces","metabase/shard/engine anchors resolved by type identity")+"; who-may-call table",),
